@@ -15,6 +15,10 @@ def handle : List String → String
     match parseList lo, parseList hi, parseW w with
     | some lo, some hi, some w => showPB (stacking Gen.pValues lo hi w)
     | _, _, _ => "bad-op"
+  | ["stackg", g, lo, hi, w] =>      -- the same model on an explicit grid (Params.p_values set to another linspace)
+    match parseList g, parseList lo, parseList hi, parseW w with
+    | some g, some lo, some hi, some w => showPB (stacking g lo hi w)
+    | _, _, _, _ => "bad-op"
   | ["rt", l, r] =>
     match parseList l, parseList r with
     | some l, some r => showPB (roundtrip Gen.pValues Gen.steps ⟨l, r⟩)
